@@ -122,12 +122,19 @@ Fixpoint insert_concept (x : concept) (l : list concept) : list concept :=
   end.
 Definition sort_concepts (cs : list concept) : list concept := fold_right insert_concept [] cs.
 
-(* position of a concept in a list: the dictionaries {c: i} are keyed by concept, and concept
-   equality is equality of extent_i *)
+(* AbstractConcept.__eq__ / __hash__: same support and sorted(extent_i) equal -- equality of the
+   extent SETS, whatever the order in which extent_i lists them *)
+Fixpoint insert_nat (x : nat) (l : list nat) : list nat :=
+  match l with [] => [x] | y :: l' => if Nat.leb x y then x :: l else y :: insert_nat x l' end.
+Definition sort_nat (l : list nat) : list nat := fold_right insert_nat [] l.
+Definition same_extent (c d : concept) : bool :=
+  Nat.eqb (support c) (support d) && nat_list_eqb (sort_nat (fst c)) (sort_nat (fst d)).
+
+(* position of a concept in a list: the dictionaries {c: i} are keyed by concept *)
 Fixpoint index_of_from (k : nat) (c : concept) (l : list concept) : nat :=
   match l with
   | [] => k
-  | d :: l' => if nat_list_eqb (fst c) (fst d) then k else index_of_from (S k) c l'
+  | d :: l' => if same_extent c d then k else index_of_from (S k) c l'
   end.
 Definition index_of (c : concept) (l : list concept) : nat := index_of_from 0 c l.
 
